@@ -15,6 +15,9 @@ Definition go_string_of_byte (c : N) : bytes :=
 (* x / y and x % y on int with a divisor that is not a non-zero constant *)
 Definition go_int_quot (a b : Z) : res Z := if b =? 0 then Panic else Ok (Z.quot a b).
 Definition go_int_rem (a b : Z) : res Z := if b =? 0 then Panic else Ok (Z.rem a b).
+(* m[k] = v on a map[string]string (None = nil map: assignment panics) *)
+Definition go_map_set (m : option tagmap) (k v : bytes) : res (option tagmap) :=
+  match m with Some mm => Ok (Some (tags_set mm k v)) | None => Panic end.
 
 (* cutNewLines — client/commands.go *)
 Definition go_client_cutNewLines (s : bytes) : res bytes :=
@@ -488,4 +491,135 @@ Definition go_client_Conn_Authenticate (message : bytes) : res (list bytes) :=
   let out : list bytes := [] in
   t1 <- go_client_Conn_Raw ([65; 85; 84; 72; 69; 78; 84; 73; 67; 65; 84; 69; 32]%N ++ message) ;;
   Ok (out ++ t1).
+
+(* var tagsReplacer = strings.NewReplacer(...) *)
+Definition go_client_tagsReplacer : list (bytes * bytes) :=
+  [([92; 58]%N, [59]%N); ([92; 115]%N, [32]%N); ([92; 92]%N, [92]%N); ([92; 114]%N, [13]%N); ([92; 110]%N, [10]%N)].
+
+(* ParseLine — client/line.go *)
+Definition go_client_ParseLine (s : bytes) : res (option (option tagmap * bytes * bytes * bytes * bytes * bytes * bytes * list bytes)) :=
+  let line_Tags : option tagmap := None in
+  let line_Nick : bytes := [] in
+  let line_Ident : bytes := [] in
+  let line_Host : bytes := [] in
+  let line_Src : bytes := [] in
+  let line_Cmd : bytes := [] in
+  let line_Raw : bytes := s in
+  let line_Args : list bytes := [] in
+  if beq s [] then
+    Ok None
+  else
+    (t1 <- byte_at s 0 ;;
+    let k1 := fun (p : bytes * option tagmap) =>
+        let '(s, line_Tags) := p in
+        if beq s [] then
+          Ok None
+        else
+          (t2 <- byte_at s 0 ;;
+          let k2 := fun (p : bytes * bytes * bytes * bytes * bytes) =>
+              let '(s, line_Nick, line_Ident, line_Host, line_Src) := p in
+              let args : list bytes := split2 s [32; 58]%N in
+              t3 <- elem_at args 0 ;;
+              let fields_ : list bytes := fields t3 in
+              if llen fields_ =? 0 then
+                Ok None
+              else
+                (args <- (
+                    if llen args >? 1 then
+                      (t4 <- elem_at args 1 ;;
+                      Ok (fields_ ++ [t4]))
+                    else
+                      Ok fields_) ;;
+                t5 <- elem_at args 0 ;;
+                let line_Cmd : bytes := to_upper t5 in
+                line_Args <- (
+                    if llen args >? 1 then
+                      elems_from args 1
+                    else
+                      Ok line_Args) ;;
+                t8 <- (if (beq line_Cmd [80; 82; 73; 86; 77; 83; 71]%N || beq line_Cmd [78; 79; 84; 73; 67; 69]%N) && (llen line_Args >? 1) then t7 <- elem_at line_Args 1 ;; Ok (len t7 >? 2) else Ok false) ;;
+                t10 <- (if t8 then t9 <- elem_at line_Args 1 ;; Ok (has_prefix t9 [1]%N) else Ok false) ;;
+                t12 <- (if t10 then t11 <- elem_at line_Args 1 ;; Ok (has_suffix t11 [1]%N) else Ok false) ;;
+                p1 <- (
+                    if t12 then
+                      (t13 <- elem_at line_Args 1 ;;
+                      let t : list bytes := split2 (trim t13 [1]%N) [32]%N in
+                      line_Args <- (
+                          if llen t >? 1 then
+                            (t14 <- elem_at t 1 ;;
+                            set_elem line_Args 1 t14)
+                          else
+                            Ok line_Args) ;;
+                      t15 <- elem_at t 0 ;;
+                      let c : bytes := to_upper t15 in
+                      let '(line_Cmd, line_Args) := (
+                          if beq c [65; 67; 84; 73; 79; 78]%N && beq line_Cmd [80; 82; 73; 86; 77; 83; 71]%N then
+                            (let line_Cmd : bytes := c in
+                            (line_Cmd, line_Args))
+                          else
+                            (let line_Cmd : bytes := (
+                                if beq line_Cmd [80; 82; 73; 86; 77; 83; 71]%N then
+                                  [67; 84; 67; 80]%N
+                                else
+                                  [67; 84; 67; 80; 82; 69; 80; 76; 89]%N) in
+                            let line_Args : list bytes := [c] ++ line_Args in
+                            (line_Cmd, line_Args))) in
+                      Ok (line_Cmd, line_Args))
+                    else
+                      Ok (line_Cmd, line_Args)) ;;
+                let '(line_Cmd, line_Args) := p1 in
+                Ok (Some (line_Tags, line_Nick, line_Ident, line_Host, line_Src, line_Cmd, line_Raw, line_Args))) in
+          if (t2 =? 58%N)%N then
+            (let idx : Z := index s [32]%N in
+            if negb (idx =? (-1)) then
+              (t16 <- slice s 1 idx ;;
+              t17 <- slice_from s (idx + 1) ;;
+              let '(line_Src, s) := (t16, t17) in
+              let line_Host : bytes := line_Src in
+              t18 <- go_client_parseUserHost line_Src ;;
+              let '(n, i, h, ok) := t18 in
+              let '(line_Nick, line_Ident, line_Host) := (
+                  if ok then
+                    (let line_Nick : bytes := n in
+                    let line_Ident : bytes := i in
+                    let line_Host : bytes := h in
+                    (line_Nick, line_Ident, line_Host))
+                  else
+                    (line_Nick, line_Ident, line_Host)) in
+              k2 (s, line_Nick, line_Ident, line_Host, line_Src))
+            else
+              Ok None)
+          else
+            k2 (s, line_Nick, line_Ident, line_Host, line_Src)) in
+    if (t1 =? 64%N)%N then
+      (let rawTags : bytes := [] in
+      let line_Tags : option tagmap := Some [] in
+      let idx_1 : Z := index s [32]%N in
+      if negb (idx_1 =? (-1)) then
+        (t19 <- slice s 1 idx_1 ;;
+        t20 <- slice_from s (idx_1 + 1) ;;
+        let '(rawTags, s) := (t19, t20) in
+        let fix loop1 (l : list bytes) (line_Tags : option tagmap) {struct l} : res (option tagmap) :=
+            match l with
+            | [] => Ok line_Tags
+            | tag :: l' =>
+                if beq tag [] then
+                  loop1 l' line_Tags
+                else
+                  (let pair : list bytes := split2 (replace_pairs go_client_tagsReplacer tag) [61]%N in
+                  line_Tags <- (
+                      if llen pair <? 2 then
+                        go_map_set line_Tags tag []
+                      else
+                        (t21 <- elem_at pair 0 ;;
+                        t22 <- elem_at pair 1 ;;
+                        go_map_set line_Tags t21 t22)) ;;
+                  loop1 l' line_Tags)
+            end in
+        line_Tags <- loop1 (split_byte rawTags 59%N) line_Tags ;;
+        k1 (s, line_Tags))
+      else
+        Ok None)
+    else
+      k1 (s, line_Tags)).
 
